@@ -60,6 +60,24 @@ func (e *Engine) GenLemma(con *Contract) (obls []*Obligation, err error) {
 	for _, r := range con.Requires {
 		vc.assume("true", vc.evalBool(env, r.Expr))
 	}
+	for i, cl := range con.Calls {
+		cc := e.CS.Contracts[cl.Key]
+		if cc == nil {
+			return nil, fmt.Errorf("%s: call of %s, which has no contract", con.Name, cl.Key)
+		}
+		fn := e.Funcs[cl.Key]
+		if fn == nil {
+			return nil, fmt.Errorf("%s: call of unknown function %s", con.Name, cl.Key)
+		}
+		env = vc.newEnv(st, st, nil)
+		var args []SV
+		for _, a := range cl.Args {
+			args = append(args, env.eval(a))
+		}
+		res := vc.applyContract(cc, cl.Key, i, args, st, "true", fn.Signature.Results(), token.NoPos)
+		vc.params[cl.Var] = res
+	}
+	env = vc.newEnv(st, st, nil)
 	for _, c := range con.Ensures {
 		props := c.Props
 		if len(props) == 0 {
